@@ -212,6 +212,7 @@ def excName : Exc → String
   | .assertionError => "Other:AssertionError"
   | .fileNotFoundError => "Other:FileNotFoundError"
   | .templateNotFound => "Other:TemplateNotFound"
+  | .valueError => "Other:ValueError"
   | .inner n => "Other:Inner" ++ toString n
   | .unmodelled => "unmodelled"
 
@@ -341,7 +342,8 @@ def both {σ : Type} (run : σ → List Item → Run σ Item) (sel : Item → Bo
   Json.mkObj [("flow", ofList (fun v => ofTok v.tok) flow), ("run", runJson getFS r), ("a", runJson getFS rA),
     ("pred", ofBlocks (mergeBlocks rA.err.isSome p rA.blocks B)),
     ("pickA", ofBlocks (pick true p r.blocks)), ("pickB", ofBlocks (pick false p r.blocks)),
-    ("sel", ofList Json.bool (flow.map sel))]
+    ("sel", ofList Json.bool (flow.map sel)),
+    ("ispattern", Json.bool (decide (p.count true = A.length ∧ p.count false = B.length)))]
 
 def toSched (j : Json) : Option Sched :=
   match (arr? j).bind (fun a => a.toList.mapM (fun x =>
@@ -363,6 +365,35 @@ def itemList? (j : Json) : Option (List Item) := (arr? j).bind (fun a => a.toLis
 /-- `{"k":"tocsv","dup":b,"header":b}` (defaults: `duplicate_last_bin=True`, no header) -/
 def csvCfg (el : Json) : CsvCfg := ⟨(bool? (getD el "dup")).getD true, (bool? (getD el "header")).getD false⟩
 
+/-- `select_template` given as a callable: the menu of the harness -/
+def selTemplateOf (j : Json) : Option (Option (Item → Except Exc String)) :=
+  if j.isNull then some none else
+  match str? j with
+  | some "t2" => some (some (fun _ => .ok "t2.tex"))
+  | some "bycls" => some (some (fun v => .ok (match v.data with
+      | .int _ => "t1.tex"
+      | _ => "t2.tex")))
+  | some "missing" => some (some (fun _ => .ok "missing.tex"))
+  | some "raise" => some (some (fun _ => .error (.inner 1)))
+  | _ => none
+
+def renderCfgOf (el : Json) : Option RenderCfg :=
+  let selJ := getD el "sel"
+  let sel : Option (Option (Item → Bool)) :=
+    if selJ.isNull then some none else (toSel selJ).map (fun s => some (evalSel s))
+  match str? (getD el "def"), (arr? (getD el "templates")).bind (fun a => a.toList.mapM str?), sel,
+      selTemplateOf (getD el "seltemplate") with
+  | some d, some ts, some sel, some st => some ⟨d, ts, sel, st, (bool? (getD el "fromdata")).getD false⟩
+  | _, _, _, _ => none
+
+/-- `{"k":"h2g","mv":"default"|"first"|"witherr","nfields":n,"scale":b}` -/
+def h2gCfgOf (el : Json) : H2GCfg :=
+  ⟨match str? (getD el "mv") with
+    | some "first" => .first
+    | some "witherr" => .withErr
+    | _ => .default,
+   (nat? (getD el "nfields")).getD 2, (bool? (getD el "scale")).getD false⟩
+
 def liftW (f : FS → Item → Step FS Item) : World → Item → Step World Item :=
   liftFS World.fs (fun w fs => { w with fs := fs }) f
 
@@ -374,18 +405,12 @@ def stageOf (el : Json) : Option ((World → Item → Step World Item) × (Item 
     match str? (getD el "outdir"), str? (getD el "defname"), bool? (getD el "eu"), bool? (getD el "ow") with
     | some od, some dn, some eu, some ow => some (liftW (writeStep ⟨od, dn, eu, ow⟩), writeSel)
     | _, _, _, _ => none
-  | some "render" =>
-    let selJ := getD el "sel"
-    let sel : Option (Option (Item → Bool)) :=
-      if selJ.isNull then some none else (toSel selJ).map (fun s => some (evalSel s))
-    match str? (getD el "def"), (arr? (getD el "templates")).bind (fun a => a.toList.mapM str?), sel with
-    | some d, some ts, some sel => some (renderStep ⟨d, ts, sel⟩, renderSel ⟨d, ts, sel⟩)
-    | _, _, _ => none
+  | some "render" => (renderCfgOf el).map (fun cfg => (renderStep cfg, renderSel cfg))
   | some "png" =>
     match str? (getD el "format"), bool? (getD el "ow") with
     | some f, some ow => some (liftW (pngStep ⟨f, ow⟩), pngSel)
     | _, _ => none
-  | some "h2g" => some (histToGraphStep, histToGraphSel)
+  | some "h2g" => some (histToGraphStep (h2gCfgOf el), histToGraphSel)
   | some "iterbins" => (binSel (getD el "bins")).map (fun sb => (iterateBinsStep sb, iterateBinsSel sb))
   | some "mapbins" =>
     match binSel (getD el "bins"), cellInnerOf (getD el "inner") with
@@ -398,12 +423,118 @@ def stageOf (el : Json) : Option ((World → Item → Step World Item) × (Item 
   | some "mapgroup" => (innerOf (getD el "inner")).map (fun inner => (mapGroupStep inner, mapGroupSel))
   | _ => none
 
+/-- any element but `pdf`/`groupplots` as a loop body in `World` (a pipeline is the composite body) -/
+def elemOf (el : Json) : Option ((World → Item → Step World Item) × (Item → Bool)) :=
+  match str? (getD el "k") with
+  | some "pipe" =>
+    match (arr? (getD el "stages")).bind (fun a => a.toList.mapM stageOf) with
+    | some stages => some (pipeAll (stages.map (·.1)), fun v => stages.any (fun st => st.2 v))
+    | none => none
+  | _ => stageOf el
+
+def sameJson (a b : Json) : Bool := a.compress == b.compress
+
+/-- reference semantics (`sharedStep`): what an observer sees after the run (`finalView`) -/
+def sharedJson (step : World → Item → Step World Item) (w0 : World) (flow : List Item) : Json :=
+  let r := loop (sharedStep step) (w0, []) flow
+  Json.mkObj [("blocks", ofBlocks (finalView r.st.2 r.blocks)), ("tail", Json.arr #[]), ("fs", ofFS r.st.1.fs),
+    ("err", ofErr r.err)]
+
+def handleShared (el : Json) (w0 : World) (p : List Bool) (A B : List Item) : Json :=
+  match elemOf el with
+  | some (step, sel) =>
+    let flow := merge p A B
+    let plain := loop step w0 flow
+    let sh := loop (sharedStep step) (w0, []) flow
+    Json.mkObj [("flow", ofList (fun v => ofTok v.tok) flow), ("run", sharedJson step w0 flow),
+      ("a", sharedJson step w0 A), ("sel", ofList Json.bool (flow.map sel)),
+      ("local", Json.bool (localB flow)),
+      -- does the value-passing loop predict what the reference semantics shows?
+      ("plain_equal", Json.bool (sameJson (ofBlocks plain.blocks) (ofBlocks (finalView sh.st.2 sh.blocks))
+        && sameJson (ofErr plain.err) (ofErr sh.err) && sameJson (ofFS plain.st.fs) (ofFS sh.st.1.fs)))]
+  | none => err "bad element for shared mode"
+
+/-- one element object used for two flows one after the other: the second run starts from the state the
+first one left -/
+def handleSecond (el : Json) (w0 : World) (p : List Bool) (A B : List Item) (p2 : List Bool) (A2 B2 : List Item) :
+    Json :=
+  match elemOf el with
+  | some (step, sel) =>
+    let flow := merge p A B
+    let flow2 := merge p2 A2 B2
+    let r1 := loop step w0 flow
+    let r2 := loop step r1.st flow2
+    let a1 := loop step w0 A
+    let a2 := loop step a1.st A2
+    Json.mkObj [("flow", ofList (fun v => ofTok v.tok) flow), ("run", runJson World.fs r1),
+      ("a", runJson World.fs a1), ("run2", runJson World.fs r2), ("a2", runJson World.fs a2),
+      ("sel", ofList Json.bool (flow.map sel)), ("sel2", ofList Json.bool (flow2.map sel)),
+      ("pred", ofBlocks (mergeBlocks a1.err.isSome p a1.blocks B)),
+      ("pred2", ofBlocks (mergeBlocks a2.err.isSome p2 a2.blocks B2)),
+      ("pickA", ofBlocks (pick true p r1.blocks)), ("pickB", ofBlocks (pick false p r1.blocks))]
+  | none => err "bad element for second mode"
+
+/-- `group_by` given as a callable: the menu of the harness -/
+def keyOf (j : Json) : Option (Item → Except Exc String) :=
+  match str? j with
+  | some "parity" => some (fun v => match v.data with
+      | .int i => .ok (if i % 2 == 0 then "k0" else "k1")
+      | .other _ _ _ => .error .unmodelled
+      | _ => .error .typeError)
+  | some "cls" => some (fun v => .ok (dataCls v.data))
+  | some "ctxn" => some (fun v => match lookup v.dict "n" with
+      | some (.int i) => .ok (toString i)
+      | some (.str s) => .ok s
+      | some _ => .error .unmodelled
+      | none => .error .keyError)
+  | some "const" => some (fun _ => .ok "all")
+  | _ => none
+
+def trunJson (fs : FS) (r : TRun Groups Item) : Json :=
+  Json.mkObj [("blocks", ofBlocks r.blocks), ("tail", ofList ofItem r.tail), ("fs", ofFS fs), ("err", ofErr r.err)]
+
+def handleGroupPlots (el : Json) (fs : FS) (p : List Bool) (A B : List Item)
+    (second : Option (List Bool × List Item × List Item)) : Json :=
+  let selJ := getD el "sel"
+  let sel : Option (Item → Bool) := if selJ.isNull then some (fun _ => true) else (toSel selJ).map evalSel
+  match sel, keyOf (getD el "key"), bool? (getD el "ys") with
+  | some sel, some key, some ys =>
+    let cfg : GPCfg := ⟨sel, key, ys⟩
+    let flow := merge p A B
+    let r := groupPlotsRun cfg [] flow
+    let rA := groupPlotsRun cfg [] A
+    let base := [("flow", ofList (fun v => ofTok v.tok) flow), ("run", trunJson fs r), ("a", trunJson fs rA),
+      ("pred", ofBlocks (mergeBlocks (loop (groupPlotsStep cfg) [] A).err.isSome p rA.blocks B)),
+      ("pickA", ofBlocks (pick true p r.blocks)), ("pickB", ofBlocks (pick false p r.blocks)),
+      ("sel", ofList Json.bool (flow.map sel))]
+    match second with
+    | none => Json.mkObj base
+    | some (p2, A2, B2) =>
+      let flow2 := merge p2 A2 B2
+      let r2 := groupPlotsRun cfg r.st flow2
+      let a2 := groupPlotsRun cfg rA.st A2
+      Json.mkObj (base ++ [("run2", trunJson fs r2), ("a2", trunJson fs a2),
+        ("sel2", ofList Json.bool (flow2.map sel)),
+        ("pred2", ofBlocks (mergeBlocks (loop (groupPlotsStep cfg) rA.st A2).err.isSome p2 a2.blocks B2))])
+  | _, _, _ => err "bad groupplots spec"
+
+def patOf (j : Json) : Option (List Bool) := (arr? j).bind (fun a => a.toList.mapM bool?)
+
 def handle (j : Json) : Json :=
   let el := getD j "el"
   match toFS (getD j "fs"), itemList? (getD j "A"), itemList? (getD j "B"),
       (arr? (getD j "pat")).bind (fun a => a.toList.mapM bool?) with
   | some fs, some A, some B, some p =>
     let w0 : World := ⟨fs, 0⟩
+    let sec := getD j "second"
+    let second : Option (List Bool × List Item × List Item) :=
+      match patOf (getD sec "pat"), itemList? (getD sec "A"), itemList? (getD sec "B") with
+      | some p2, some A2, some B2 => some (p2, A2, B2)
+      | _, _, _ => none
+    if (bool? (getD j "shared")).getD false then handleShared el w0 p A B
+    else if str? (getD el "k") == some "groupplots" then handleGroupPlots el fs p A B second
+    else if let some (p2, A2, B2) := second then handleSecond el w0 p A B p2 A2 B2
+    else
     match str? (getD el "k") with
     | some "tocsv" => both (toCSVRun (csvCfg el)) toCSVSel id fs p A B
     | some "write" =>
@@ -411,12 +542,9 @@ def handle (j : Json) : Json :=
       | some od, some dn, some eu, some ow => both (writeRun ⟨od, dn, eu, ow⟩) writeSel id fs p A B
       | _, _, _, _ => err "bad write spec"
     | some "render" =>
-      let selJ := getD el "sel"
-      let sel : Option (Option (Item → Bool)) :=
-        if selJ.isNull then some none else (toSel selJ).map (fun s => some (evalSel s))
-      match str? (getD el "def"), (arr? (getD el "templates")).bind (fun a => a.toList.mapM str?), sel with
-      | some d, some ts, some sel => both (renderRun ⟨d, ts, sel⟩) (renderSel ⟨d, ts, sel⟩) id fs p A B
-      | _, _, _ => err "bad render spec"
+      match renderCfgOf el with
+      | some cfg => both (renderRun cfg) (renderSel cfg) id fs p A B
+      | none => err "bad render spec"
     | some "png" =>
       match str? (getD el "format"), bool? (getD el "ow") with
       | some f, some ow => both (pngRun ⟨f, ow⟩) pngSel id fs p A B
@@ -432,9 +560,11 @@ def handle (j : Json) : Json :=
           ("spec", ofList ofItem (pdfSpec ow sch.rc fs 0 (flow.filter pdfSel))),
           ("keysok", Json.bool (keysOKb [] flow)),
           ("passed", ofList (fun v => ofTok v.tok) (passedOf r.out)),
+          -- what the pool still holds when the flow is exhausted is what the drain yields
+          ("pending", ofList ofItem (pending sch.rc (loop (pdfStep ow sch) ⟨fs, [], 0, 0⟩ flow).st.pool)),
           ("prods", ofList ofItem (prodsOf r.out))]
       | _, _ => err "bad pdf spec"
-    | some "h2g" => both histToGraphRun histToGraphSel id fs p A B
+    | some "h2g" => both (histToGraphRun (h2gCfgOf el)) histToGraphSel id fs p A B
     | some "iterbins" =>
       match binSel (getD el "bins") with
       | some sb => both (iterateBinsRun sb) (iterateBinsSel sb) id fs p A B
